@@ -116,6 +116,7 @@ static void addr_name (const volatile void *p, char *buf, size_t n) {
 	}
 	snprintf (buf, n, "glb");
 }
+size_t vrt_region_size (const void *p) { struct region *r = find_region (p); return r ? (size_t) (r->hi - r->lo) : 0; }
 int vrt_is_freed (const void *p) {
 	struct region *r = find_region (p);
 	return r != NULL && r->freed;
